@@ -41,6 +41,46 @@ def render(lines):
     return "\n".join(out) + "\n"
 
 
+def render_other_formats(panel, variant):
+    """The same labelled, equal-length, univariate panel as the text of an .arff and of a UCR .tsv file (what the
+    archive ships next to every .ts file), with harmless layout variations."""
+    n = len(panel[0]["vals"])
+    labs = sorted({c["lab"][0] for c in panel})
+    arff = ["% a header comment" if variant % 2 else "%", "@RELATION x" if variant % 3 == 0 else "@relation x"]
+    arff += ["@attribute att%d numeric" % k for k in range(n)]
+    arff += ["@attribute target {%s}" % ",".join(labs), "", "@DATA" if variant % 2 else "@data"]
+    for i, c in enumerate(panel):
+        arff.append(",".join(repr(VALUES[v]) for v in c["vals"]) + "," + c["lab"][0])
+        if variant % 4 == 2 and i == 0:
+            arff.append("")                                   # a blank line between cases
+    arff_text = "\n".join(arff) + ("" if variant % 5 == 3 else "\n")       # sometimes no line terminator at the end
+    tsv_text = "".join(c["lab"][0] + "\t" + "\t".join(repr(VALUES[v]) for v in c["vals"]) + "\n" for c in panel)
+    return arff_text, tsv_text
+
+
+def load_other_formats(panel, variant, workdir, tid):
+    from sktime.utils.data_io import load_from_arff_to_dataframe, load_from_ucr_tsv_to_dataframe
+    arff_text, tsv_text = render_other_formats(panel, variant)
+    out = {}
+    for ext, text, loader in (("arff", arff_text, load_from_arff_to_dataframe), ("tsv", tsv_text, load_from_ucr_tsv_to_dataframe)):
+        path = os.path.join(workdir, "f%d.%s" % (tid, ext))
+        with open(path, "w") as f:
+            f.write(text)
+        try:
+            X, y = loader(path)
+            cases = []
+            for i in range(len(X)):
+                cell = X.iloc[i, 0]
+                ok = list(X.columns) == ["dim_0"] and [int(t) for t in cell.index] == list(range(len(cell)))
+                cases.append({"vals": [token_id(v) for v in cell.values] if ok else [-1], "lab": str(y[i])})
+            out[ext] = cases
+        except Exception as e:
+            out[ext] = [{"vals": [-2], "lab": type(e).__name__}]
+        finally:
+            os.remove(path)
+    return out
+
+
 def token_id(tok):
     x = float(tok)
     for k, v in VALUES.items():
@@ -237,6 +277,13 @@ def run(ctx):
                               % (canon([(x["k"], x["b"]) for x in v["written"]])[:250], canon([(x["k"], x["b"]) for x in lines])[:250]))
             recs.append({"tid": len(recs), "kind": "write", "opts": cfg["opts"], "panel": cfg["panel"],
                          "labels": cfg["labels"], "lines": lines, "loaded": loaded})
+            # the same panel shipped as .arff and as UCR .tsv parses to the very panel the .ts file parses to
+            lens = {len(c["vals"]) for c in cfg["panel"]}
+            if cfg["opts"]["labelled"] and len(lens) == 1 and min(lens) >= 1 and cfg["panel"]:
+                other = load_other_formats(cfg["panel"], i, work, i)
+                ctx.evaluations += 1
+                ts_cases = [{"vals": c["vals"], "lab": c["lab"][0] if isinstance(c["lab"], list) else c["lab"]} for c in cfg["panel"]]
+                recs.append({"tid": len(recs), "kind": "formats", "ts": ts_cases, "arff": other["arff"], "tsv": other["tsv"]})
         ctx.nontriv(cfg)
         if i % 600 == 0:
             ctx.sample({"mutation": cfg["mut"], "file": render(cfg["lines"]).splitlines(), "expected": v["parsed"]})
@@ -256,7 +303,7 @@ def run(ctx):
             recs.append({"tid": len(recs), "kind": "dataset", "name": name, "has_formats": hf, "d": d})
         except Exception as e:
             ctx.violation({"dataset": name}, "dataset loader crash: %s %s" % (type(e).__name__, str(e)[:120]))
-    fill = {"lines": [], "loaded": {"rej": False, "cases": [], "labelled": False}, "opts": {"comment": False, "equal": False, "labelled": False},
+    fill = {"ts": [], "arff": [], "tsv": [], "lines": [], "loaded": {"rej": False, "cases": [], "labelled": False}, "opts": {"comment": False, "equal": False, "labelled": False},
             "panel": [], "labels": [], "d": {}, "has_formats": False}
     rejects, _ = ctx.judge("TraceTsFile", "TraceTsFile.cfg",
                            [dict(fill, **{k: x[k] for k in x if k != "name"}) for x in recs], timeout=2400)
